@@ -164,5 +164,5 @@ Lemma gen_tie_rules_ok :
                    "refuse_tie_breaking"]%string.
 Proof. reflexivity. Qed.
 
-Lemma gen_tie_all_translated : filter is_tie_name gen_untranslated = [].
+Lemma gen_tie_all_translated : gen_untranslated_tie = [].
 Proof. reflexivity. Qed.
